@@ -73,7 +73,14 @@ int32_t tls13ValidateRecordHeader(sslRec_t *rec)
     }
     if (rec->type == SSL_RECORD_TYPE_ALERT)
     {
-        if (rec->len < 2 || rec->len > 2 + TLS_GCM_TAG_LEN)
+        if (rec->len < 2)
+        {
+            /* An alert is two octets: a shorter record cannot hold one
+               (and must not be completed from the bytes that follow it) */
+            psTraceErrr("Invalid alert length\n");
+            return PS_PARSE_FAIL;
+        }
+        if (rec->len > 2 + TLS_GCM_TAG_LEN)
         psTraceErrr("Invalid alert length\n");
     }
     /* Ignore legacy_version field. */
@@ -303,6 +310,12 @@ parse_next_record_header:
                     len,
                     alertLevel,
                     alertDescription);
+            if (rc == MATRIXSSL_ERROR)
+            {
+                /* Not an alert we could read: a decoding error, fatal */
+                ssl->err = SSL_ALERT_DECODE_ERROR;
+                goto encodeResponse;
+            }
             *in = pb.buf.start;
             return rc;
         }
@@ -530,6 +543,12 @@ parse_next_record_header:
                 len,
                 alertLevel,
                 alertDescription);
+        if (rc == MATRIXSSL_ERROR)
+        {
+            /* Alert content shorter than two octets */
+            ssl->err = SSL_ALERT_DECODE_ERROR;
+            goto encodeResponse;
+        }
         *in = pb.buf.start;
         return rc;
     }
